@@ -67,6 +67,9 @@ pub enum Cmd {
     Heal,
     Crash { p: usize },
     Restart { p: usize },
+    /// the address of the stopped node p is taken over by the other cluster: the next node started
+    /// there belongs to it (two-cluster runs only)
+    Rehome { p: usize },
     Join { p: usize },
     /// panicky: the callback panics whenever it is called from a local write of the application
     /// (a fault of user code; the node has to stay consistent)
@@ -111,6 +114,7 @@ impl Cmd {
             Cmd::Heal => "heal",
             Cmd::Crash { .. } => "crash",
             Cmd::Restart { .. } => "restart",
+            Cmd::Rehome { .. } => "rehome",
             Cmd::Join { .. } => "join",
             Cmd::Subscribe { .. } => "subscribe",
             Cmd::Unsubscribe { .. } => "unsubscribe",
